@@ -113,7 +113,9 @@ class Gen:
                           "00", "-0", "0777", "9223372036854775807", "-9223372036854775808"])
             if r.random() < 0.4:
                 t2 = r.choice(["", "-"]) + tricky.digit_string(r)
-                if -2 ** 63 <= int(t2) <= 2 ** 63 - 1:         # beyond that: known finding number-literal-out-of-range
+                # beyond a machine integer the literal is reported (known finding number-literal-out-of-range, C14);
+                # a few are kept: what must never happen is that one is accepted with another value
+                if -2 ** 63 <= int(t2) <= 2 ** 63 - 1 or r.random() < 0.25:
                     t = t2
             n = int(t)
             return lambda p: self._leaf(p, t, lambda R: "(num %s %d)" % (R, n))
